@@ -103,9 +103,11 @@ def handle (st : St) (line : String) : St × List String :=
                    boxes := ((0,0,0),(0,0,0)) :: st.boxes, pending := none }, [o1, o2, o3])
       else
         let vals : Array Float32 := (st.slots.map f32!).toArray
-        let lo : Nat → Float32 := fun s => arrGet vals (2*s)
-        let hi : Nat → Float32 := fun s => arrGet vals (2*s+1)
-        let keep := intervalKeep (fun a b => decide (a < b)) lo hi
+        let lo : Nat → Float32 := fun s => arrGet vals (3*s)
+        let hi : Nat → Float32 := fun s => arrGet vals (3*s+1)
+        -- third token per slot: 3f800000 (1.0) iff `i[s].isSafe()`
+        let safe : Nat → Bool := fun s => (arrGet vals (3*s+2)).toBits == 0x3f800000
+        let keep := intervalKeep (fun a b => decide (a < b)) lo hi safe
         let model := cur.push keep
         let okPush := model.t == real.t && model.root == real.root && model.terminal == real.terminal
         let o1 := if okPush then s!"ok push interval {tag}" else
